@@ -98,6 +98,19 @@ def run(ctx):
             if row['ret'] is not None:
                 r.eq('%s:returns' % fnp, S.show(ret), row['ret'], site, why="exactly the values carried by the server's reply")
 
+    with ctx.rule('R04.6', 'no unsolicited replies: the nowait bit on the wire agrees with whether the call waits', floor=40) as r:
+        for row in T.ROWS:
+            if 'nowait' not in row['fields']:
+                continue
+            fnp = row['fn']
+            ems, ret, events = W.read_op(ctx, fnp, row['params'])
+            em = [e for e in ems if e.sink in ('call', 'nowait', 'consume')]
+            if not r.check('%s:emission' % fnp, len(em) == 1 and em[0].fields is not None, ctx.site(fnp)):
+                continue
+            waits = em[0].sink in ('call', 'consume')
+            r.eq('%s:nowait-bit' % fnp, em[0].fields.get('nowait'), 'false' if waits else 'true', ctx.site(fnp),
+                 why='a request sent without waiting but with nowait=false makes the server send a reply that the next synchronous call on the channel would receive')
+
     with ctx.rule('R04.4', 'call = send on own sender, receive on own receiver, type-check; get / consume likewise', floor=6) as r:
         rows = P.table(ctx, H0 + 'call_message', ['self', 'message'])
         site = ctx.site(H0 + 'call_message')
